@@ -9,8 +9,8 @@ VERIF_REPO=<scratch>, and records detected / missed.
 M = []
 
 
-def m(name, file, old, new, checks, note=""):
-    M.append(dict(name=name, file=file, old=old, new=new, checks=checks, note=note))
+def m(name, file, old, new, checks, note="", tier=None, env=None):
+    M.append(dict(name=name, file=file, old=old, new=new, checks=checks, note=note, tier=tier, env=env or {}))
 
 
 # ---------------- collector: marking ----------------
@@ -258,3 +258,23 @@ m("nocache-scan-skips-first-instance", "src/Type.c",
   "#endif\n  \n  return Type_Scan(self, cls);\n}",
   "#else\n  if (cls is Len) { return NULL; }\n#endif\n  \n  return Type_Scan(self, cls);\n}",
   ["C18"], "only the CELLO_CACHE=0 build cannot find Len")
+
+
+# ---------------- uninitialised memory (valgrind memcheck configuration of the thorough tier) ----------------
+MC = {"VERIF_ONLY_CONFIG": "memcheck"}
+m("tree-node-not-zeroed", "src/Tree.c",
+  "  var node = calloc(1, 3 * sizeof(var) + ",
+  "  var node = malloc(3 * sizeof(var) + ",
+  ["C03"], "a Tree node comes from malloc: key and value bodies start out uninitialised", tier="thorough", env=MC)
+m("list-node-not-zeroed", "src/List.c",
+  "  var item = calloc(1, 2 * sizeof(var) + sizeof(struct Header) + l->tsize);",
+  "  var item = malloc(2 * sizeof(var) + sizeof(struct Header) + l->tsize);",
+  ["C04"], "a List node comes from malloc", tier="thorough", env=MC)
+m("array-slot-not-zeroed", "src/Array.c",
+  "  memset((char*)a->data + Array_Step(a) * i, 0, Array_Step(a));\n",
+  "",
+  ["C04"], "a new Array slot keeps whatever realloc left there", tier="thorough", env=MC)
+m("object-not-zeroed", "src/Alloc.c",
+  "    struct Header* head = calloc(1, sizeof(struct Header) + size(type));",
+  "    struct Header* head = malloc(sizeof(struct Header) + size(type));",
+  ["C10", "C19"], "heap objects come from malloc: fields a constructor does not set are uninitialised", tier="thorough", env=MC)
